@@ -85,6 +85,35 @@ PROPS = {
         "assumptions": ["equality with the manual swap-then-deposit run is validated by the twin-deployment stream (mon_twin_c14), not proved; all-or-nothing is C20"],
     },
 
+    "C15": {
+        "module": "MantraDex.Properties.C15", "ns": "MantraDex.C15",
+        "theorems": ["ownership_moves_only_by_accept_or_renounce", "transfer_and_renounce_require_owner", "renounced_is_final", "renounce_result",
+                     "pm_update_config_requires_owner", "pm_privileged_nonpayable", "pm_config_changes_only_by_privileged",
+                     "fm_update_config_requires_owner", "fm_privileged_nonpayable", "expand_farm_requires_farm_owner",
+                     "close_farm_requires_farm_or_contract_owner", "close_position_requires_owner", "withdraw_position_requires_owner",
+                     "expand_position_requires_owner_or_pm", "create_for_other_requires_pm", "em_privileged_requires_owner_and_no_funds",
+                     "fc_only_ownership_no_funds"],
+        "streams": {"auth": (1, 1), "pm_hist": (40, 2000), "fm_hist": (40, 2000)},
+        "what": "ownership moves only when the pending owner accepts before expiry or the owner renounces; transfer/renounce need the owner; a renounced "
+                "contract rejects every ownership action; on all four contracts config/ownership messages need the owner (resp. pending owner) and no "
+                "funds, non-privileged messages never change config or ownership; farm expansion needs the farm owner, farm closing the farm owner or "
+                "the contract owner; closing/withdrawing a position needs its owner, expanding the owner or the pool manager, creating for someone else "
+                "the pool manager. The auth stream enumerates the complete matrix ownership state x contract x variant x sender role x funds on the "
+                "implementation (exhaustive: 900 combinations)",
+    },
+    "C16": {
+        "module": "MantraDex.Properties.C16", "ns": "MantraDex.C16",
+        "theorems": ["createPool_shape", "createPool_funds_exact", "createPool_messages", "static_fields_immutable_partial",
+                     "static_fields_immutable_counterexample", "static_fields_immutable_of_nodup", "reply_keeps_pools", "ids_unique_preserved",
+                     "aligned_preserved"],
+        "streams": {"pm_hist": (80, 4000)},
+        "what": "an accepted CreatePool has 2 (constant product) / 2-4 distinct assets (stableswap, amp != 0), matching decimals, valid fees (each < 100%, "
+                "total <= 20%), a well-formed fresh identifier (o.<given> / p.<counter+1>), attached exactly the creation + token-factory fees, and "
+                "emits exactly [send creation fee to collector]? ++ [create LP denom]; every later message keeps every pool and its static fields "
+                "(given unique ids, which every message preserves; without that a proved counterexample exists), keeps identifiers unique and keeps "
+                "reserves aligned with asset_denoms (what F-08 broke)",
+    },
+
     "C17": {
         "module": "MantraDex.Properties.C17", "ns": "MantraDex.C17",
         "theorems": ["swap_disabled_direct", "performSwap_status", "route_requires_enabled", "deposit_disabled", "withdraw_disabled",
